@@ -164,6 +164,15 @@ def configs(tier):
         for n in ((5, 17, 33, 70, 130, 300) if tier == 'quick' else (5, 16, 17, 18, 33, 49, 70, 101, 130, 300, 1100)):
             for order in ('asc', 'desc', 'stride'):
                 out.append(dict(large=(shape, n, order)))
+    # F: fluttering sources - within one burst a sequential block changes several times (more
+    # often than there are blocks in the circuit) before / after / between the single changes
+    # of other blocks; `extra` = further sequential blocks that never change
+    for nsrc in (2, 3):
+        for extra in (0, 2):
+            for maxlen in ((7,) if tier == 'quick' else (9,)):
+                if nsrc == 3 and tier == 'quick':
+                    maxlen = 5
+                out.append(dict(flutter=(nsrc, extra, maxlen)))
     if tier == 'thorough':
         # three blocks with inverted-name shortcuts and constants everywhere
         for b0 in block_options(2, 0, gk, ('obj', 'not'), ('obj', 'not'), (), None, ordered=False):
@@ -824,8 +833,67 @@ def run_large(cfg, acc):
     return viol
 
 
+def run_flutter(cfg, acc):
+    """
+    Sources s0..s{n-1} (Inputs holding small integers), per source a private observer
+    (parity of the value) with no other input, plus one block over all sources. A burst is any
+    sequence of <= maxlen increments of arbitrary sources; checked at every idle point.
+    """
+    nsrc, extra, maxlen = cfg['flutter']
+    viol = []
+    seqs = [seq for ln in range(1, maxlen + 1) for seq in itertools.product(range(nsrc), repeat=ln)
+            if len(set(seq)) > 1 or ln in (1, maxlen)]
+    for order in ('asc', 'desc'):
+        with Sim() as sim:
+            nets.install_rank_hash()
+            srcs = [edzed.Input(f's{i}', initdef=0) for i in range(nsrc)]
+            for j in range(extra):
+                edzed.Input(f'idle{j}', initdef=0)
+            obs = [edzed.FuncBlock(f'odd{i}', func=lambda v: v % 2).connect(srcs[i]) for i in range(nsrc)]
+            total = edzed.FuncBlock('total', func=lambda *vs: sum(vs)).connect(*srcs)
+            blocks = obs + [total]
+            nets.set_ranks(blocks, list(range(len(blocks))) if order == 'asc'
+                           else list(reversed(range(len(blocks)))))
+            senders = [edzed.ExtEvent(src) for src in srcs]
+
+            async def driver():
+                task = asyncio.create_task(sim.circuit.run_forever())
+                await sim.circuit.wait_init()
+                vals = [0] * nsrc
+                for seq in seqs:
+                    for i in seq:
+                        vals[i] += 1
+                        senders[i].send(vals[i])
+                    await sim.loop.idle()
+                    acc.count('bursts')
+                    if task.done():
+                        viol.append(('simulation-died', f"flutter burst {seq}: {sim.circuit.error!r}"))
+                        break
+                    got = [b.output for b in blocks]
+                    exp = [v % 2 for v in vals] + [sum(vals)]
+                    if got != exp:
+                        viol.append(('output-mismatch:flutter',
+                                     f"{nsrc} sources + {extra} idle sequential blocks, rank order {order}: "
+                                     f"after one burst of increments of sources {seq} (now {vals}) the parity "
+                                     f"observers and the sum output {got}, expected {exp}"))
+                        break
+                await stop(sim.circuit)
+                del task
+            sim.run(driver())
+        acc.execs += 1
+        acc.state(('flutter', nsrc, extra, order))
+        acc.outcome(('flutter', nsrc, extra, maxlen, order, bool(viol)))
+        if viol:
+            break
+    return viol
+
+
 def run_config(cfg):
     acc = Acc()
+    if 'flutter' in cfg:
+        for sig, msg in run_flutter(cfg, acc)[:2]:
+            acc.violation(f"C01:{sig}", msg, cfg=cfg)
+        return acc
     if 'loopback' in cfg:
         return run_loopback(cfg, acc)
     if 'typed' in cfg or 'ripple' in cfg:
